@@ -44,11 +44,13 @@ duplicates; node handlers are keys of the node *object* (a replaced node is a
 different object), their effects are predicted from CiA 301 (heartbeat state
 byte, NMT command -> state, EMCY layout, expedited upload response).
 """
+from collections.abc import Mapping
+
 from hypothesis import strategies as st
 
 from harness.core import Discrepancy, Outcome
 from harness.odutil import build_od
-from harness.simbus import Hub
+from harness.simbus import Frame, Hub
 
 PROPERTY = "C10"
 LEVEL = "exploration"
@@ -58,7 +60,8 @@ RULE = ("hist: case = pool of 2-3 node ids + history of up to 120 (quick) / 300 
         "pool of <= 13 CAN ids (0, heartbeat/EMCY/SDO-tx/SDO-rx ids of the pooled nodes, a free 11-bit id, 29-bit "
         "ids incl. one whose low 11 bits equal a heartbeat id) and 6 callbacks (functions, bound methods fetched "
         "afresh, two methods of one object, callable object); all histories of length <= 4 (quick) / 5 (thorough) "
-        "over two 6/7-letter alphabets are enumerated, Hypothesis draws the long ones; a reference multimap "
+        "over two 6/7-letter alphabets and of length <= 3 / 4 over an 8-letter alphabet around add_remote_eds (device "
+        "silent / abort / ok / lose2, add_remote, del, sub, frame on the SDO id) are enumerated, Hypothesis draws the long ones; a reference multimap "
         "predicts after every frame the exact ordered event log (callback invocations with id/data/timestamp and "
         "a probe of every node object's state, heartbeat/EMCY hook calls, frames sent by local nodes) and the "
         "scanner list; frame timestamps come from 8 value classes (0.0, int 0, microsecond fractions below 1 s, Unix "
@@ -66,9 +69,18 @@ RULE = ("hist: case = pool of 2-3 node ids + history of up to 120 (quick) / 300 
         "1000+i/4 and are compared exactly, also in the node handlers' nmt.timestamp / EMCY timestamp; a send op "
         "(send_message with bytes/list/bytearray data of 0..8 bytes, remote on/off, inside the history) must put "
         "exactly that id / data / remote flag / format on the bus (remote frame: data field empty or as given) and "
-        "nothing into the event log; a final sweep puts a frame on every id that ever had a subscriber (notify and "
-        "listener, timestamp classes); two template histories "
-        "(remote->local->remote->removed and local->remote->same object again->removed, frames on all its ids in "
+        "nothing into the event log; add_remote_eds = add_node(id, upload_eds=True) with a reference device (CiA 301 "
+        "SDO server for 0x1021:0) behind the bus that is silent / aborts / serves a valid EDS segmented / serves text "
+        "that is no EDS / answers expedited / goes silent after 1, 2 or 5 responses: the device's responses are received "
+        "frames on 0x580+id and must reach exactly the model's subscribers of that moment (the node being replaced "
+        "included), and however the upload ends the net change is 'old node's handlers out, new node's in'; after every "
+        "op that can change subscriptions, at the end and after the sweep Network.subscribers is compared with the "
+        "multimap (number of callbacks per id, user callbacks at the model's positions, no user callback in a node "
+        "handler's place; what a fresh Network subscribes for itself is set aside), so a handler nobody can reach any "
+        "more is seen even though no observed object shows an effect; a final sweep puts a frame on every id that ever had a subscriber (notify and "
+        "listener, timestamp classes); three template histories "
+        "(remote->local->remote->removed, local->remote->same object again->removed, and five EDS uploads ending in "
+        "five different ways over nothing / a remote / a local node / a re-added node, frames on all its ids in "
         "between) are run for every node id 1..127. id: one case per CAN id (all 2048 11-bit ids, 4096 (quick) / "
         "262144 (thorough) sampled 29-bit ids): send_message/send_periodic variants (bytes, list, bytearray, None; "
         "remote on/off, remote=True also with non-empty data of every type: the flag, id and format are demanded, "
@@ -103,6 +115,16 @@ ASSUMPTIONS = [
     "remote=True with a non-empty data argument: the outgoing frame must be a remote frame with the given id and "
     "format; its data field may be empty or the given bytes, its DLC 0 or their length (python-can drops the data); "
     "update(data) on a periodic remote frame may be refused, if accepted the live task is still one remote frame",
+    "Network.subscribers is a mapping CAN id -> sequence of the subscribed callbacks (the property's anchor); ids "
+    "without subscribers may be absent or empty; if the attribute is no mapping the comparison is skipped and the "
+    "case class says so",
+    "add_node(id, upload_eds=True): the node is added whether or not a dictionary could be uploaded (the library logs "
+    "the failure); the SUT's own request / abort frames on 0x600+id during the upload are not judged here; SDO "
+    "time-out is 1 ms, the device answers synchronously so no outcome depends on time; when a local node's SDO server "
+    "listens on 0x580+id (node id - 32) the device stays silent (it would be answered from inside a transmit call)",
+    "subscription changes and frames are sequential steps of a history: nothing changes subscriptions while one "
+    "frame is being dispatched (neither from a callback nor from a second thread) - the statement does not say "
+    "whether 'currently subscribed' is taken at reception or at each callback's turn",
     "bus family: python-can's virtual interface with preserve_timestamps=True on the sending peer hands the "
     "receiving bus a message with the sender's timestamp; up to 5 s are allowed for the notifier thread to deliver",
 ]
@@ -117,6 +139,62 @@ UPLOAD_2000 = bytes([0x40, 0x00, 0x20, 0x00, 0, 0, 0, 0])
 # function codes (id // 128) of the predefined connection set that a *node* transmits
 PCS_TX = {1: "EMCY", 3: "TPDO1", 5: "TPDO2", 7: "TPDO3", 9: "TPDO4", 11: "SDO tx", 14: "heartbeat"}
 UNSIGNED32 = 7
+
+
+# What the device does while add_node(id, upload_eds=True) reads its object 0x1021 (Store EDS):
+#   silent   nobody answers (time-out)              abort    SDO abort 0x06020000 (object does not exist)
+#   ok       a valid EDS, segmented upload          garbage  text that is no EDS, segmented upload
+#   exp      four bytes in an expedited response    loseK    as ok, but the K+1st and all later responses are lost
+DEV_MODES = ("silent", "abort", "ok", "garbage", "exp", "lose1", "lose2", "lose5")
+EDS_OK = (b"[FileInfo]\nFileName=v.eds\nFileVersion=1\nFileRevision=1\nEDSVersion=4.0\nDescription=v\nCreatedBy=v\n\n"
+          b"[DeviceInfo]\nVendorName=v\nProductName=v\nNrOfRXPDO=0\nNrOfTXPDO=0\n\n"
+          b"[MandatoryObjects]\nSupportedObjects=1\n1=0x1000\n\n"
+          b"[1000]\nParameterName=Device type\nObjectType=0x7\nDataType=0x0007\nAccessType=ro\n"
+          b"DefaultValue=0x00000191\nPDOMapping=0\n")
+EDS_GARBAGE = b"this is not an electronic data sheet\n\x00\x01\x02 = = [\n"
+
+
+class RefEdsDevice:
+    """CiA 301 SDO server side for one object, 0x1021:0 (Store EDS), written from the standard: initiate upload
+    response (expedited with size / segmented with size), upload segments with toggle bit, abort for anything
+    else. `reply(request) -> bytes | None`."""
+
+    def __init__(self, mode):
+        self.mode = mode
+        self.payload = {"garbage": EDS_GARBAGE, "exp": b"[a]\n"}.get(mode, EDS_OK)
+        self.pos = 0
+        self.toggle = 0
+        self.replies = 0
+        self.lose_after = int(mode[4:]) if mode.startswith("lose") else None
+
+    def reply(self, data):
+        if self.mode == "silent" or len(data) != 8:
+            return None
+        ccs = data[0] >> 5
+        if ccs == 2:                                   # initiate upload request
+            if self.mode == "abort" or (data[1], data[2], data[3]) != (0x21, 0x10, 0):
+                out = bytes([0x80, data[1], data[2], data[3]]) + (0x06020000).to_bytes(4, "little")
+            elif self.mode == "exp":
+                out = bytes([0x43 | ((4 - len(self.payload)) << 2), 0x21, 0x10, 0]) + self.payload.ljust(4, b"\0")
+            else:
+                self.pos, self.toggle = 0, 0
+                out = bytes([0x41, 0x21, 0x10, 0]) + len(self.payload).to_bytes(4, "little")
+        elif ccs == 3:                                 # upload segment request
+            t = (data[0] >> 4) & 1
+            if t != self.toggle:
+                out = bytes([0x80, 0x21, 0x10, 0]) + (0x05030000).to_bytes(4, "little")
+            else:
+                chunk = self.payload[self.pos:self.pos + 7]
+                self.pos += len(chunk)
+                last = self.pos >= len(self.payload)
+                out = bytes([(t << 4) | ((7 - len(chunk)) << 1) | int(last)]) + chunk.ljust(7, b"\0")
+                self.toggle ^= 1
+        else:                                          # abort from the client, anything else: no answer
+            return None
+        if self.lose_after is not None and self.replies >= self.lose_after:
+            return None
+        self.replies += 1
+        return out
 
 
 def ref_scan(listed, can_id):
@@ -185,7 +263,8 @@ class Rig:
         self.hub = Hub()
         self.net, self.port = self.hub.attach("sut")
         self.events = []
-        self.hub.port("peer", handler=self._peer)
+        self.peer_port = self.hub.port("peer", handler=self._peer)
+        self.device = None       # reference device answering the SUT's SDO requests while a node is being added
         self.nodes = []          # real node objects, index = serial k
         a = _Obj(self, 2, 5, None)
         b = _Obj(self, 3, None, None)
@@ -208,6 +287,8 @@ class Rig:
 
     def _peer(self, fr):
         self.events.append(("tx", fr.can_id, fr.data, bool(fr.remote), bool(fr.extended)))
+        if self.device is not None:
+            self.device(fr)
 
     def called(self, j, can_id, data, ts):
         self.events.append(("cb", j, can_id, bytes(data), ts, self.probe()))
@@ -394,6 +475,11 @@ def run_hist(case) -> Outcome:
     def bad(sig, detail, step):
         D.append(Discrepancy(f"C10/{sig}", f"step {step}: {detail}"))
 
+    table_seen = {}
+    base = {}
+    if isinstance(getattr(net, "subscribers", None), Mapping):
+        base = {can_id: list(cbs) for can_id, cbs in net.subscribers.items() if cbs}
+
     def deliver(can_id, data, ts, via, step):
         rig.events.clear()
         before = m.probe()
@@ -440,6 +526,42 @@ def run_hist(case) -> Outcome:
                 m.scan = alt
             elif sc != scan_before:
                 bad("scanner/history", f"after {via} frame {can_id:#x}: scanner.nodes = {sc}, was {scan_before}", step)
+
+    def check_table(step):
+        """Network.subscribers (the property's 'CAN id -> ordered list of callbacks') against the reference
+        multimap: as many callbacks per id as the model has keys, the user's callbacks at the model's positions,
+        and no user callback where the model has a node handler. A handler that nobody can reach any more (left
+        behind by a node add / replace / remove, however it ended) shows up here at once and not only as an
+        effect on some object still observed."""
+        subs = getattr(net, "subscribers", None)
+        if not isinstance(subs, Mapping):
+            stats["no-table"] = True
+            return
+        pool = [rig.cb(j) for j in range(NCB)]
+        for can_id in sorted(set(m.subs) | set(subs)):
+            want = m.subs.get(can_id, [])
+            have = list(subs.get(can_id, ()))
+            own = base.get(can_id, [])
+            if own and have[:len(own)] == own:
+                # what a fresh Network subscribes for its own services (LSS master) is not part of the history;
+                # no generated op touches that id
+                have = have[len(own):]
+            if len(have) != len(want):
+                bad("subscribers/table", f"{len(have)} callbacks are subscribed to {can_id:#x} "
+                    f"({[getattr(h, '__qualname__', type(h).__name__) for h in have]}), by the history it is "
+                    f"{len(want)}: {want}", step)
+                return
+            seen = (tuple(map(id, have)), tuple(want))
+            if table_seen.get(can_id) == seen:
+                continue        # same callback objects, same model keys as at the last comparison
+            table_seen[can_id] = seen
+            for pos, (key, cb) in enumerate(zip(want, have)):
+                mine = [j for j in range(NCB) if cb == pool[j]]
+                if mine != ([key[1]] if key[0] == "u" else []):
+                    bad("subscribers/table-order", f"position {pos} of the callbacks subscribed to {can_id:#x} "
+                        f"holds {'user callback(s) ' + str(mine) if mine else 'a handler of the library'}, by the "
+                        f"history it is {key} (all: {want})", step)
+                    return
 
     def new_obj(kind, n, node):
         k = rig.register(kind, node)
@@ -527,16 +649,41 @@ def run_hist(case) -> Outcome:
                         def call():
                             box["node"] = net.add_node(n, canopen.ObjectDictionary())
                     elif kind == "add_remote_eds":
-                        # the dictionary is to be uploaded from the device first; nobody answers, so the
-                        # node is created with an empty dictionary - a node add like any other
+                        # the dictionary is to be uploaded from the device first (object 0x1021 read through
+                        # SDO); the device answers as op["dev"] says: not at all, with an abort, with an EDS,
+                        # with something that is none, or it goes silent after some responses. However the
+                        # upload ends, this is a node add like any other: the responses are frames received
+                        # on 0x580+n and go to whoever is subscribed there at that moment (the node being
+                        # replaced is still attached), and afterwards exactly the new node's handlers are added.
+                        mode = op.get("dev", "silent")
+                        if any(key[0] == "req" for key in m.subs.get(0x580 + n, [])):
+                            # a local node's SDO server listens on this id (its node id is n - 32) and would
+                            # answer the device's responses from inside the transmit call: keep the bus silent
+                            mode = "silent"
+                        stats["eds-" + ("lose" if mode.startswith("lose") else mode)] = True
+                        dev = RefEdsDevice(mode)
+                        eds_exp = []
+
+                        def device(fr, n=n, dev=dev, eds_exp=eds_exp):
+                            if fr.can_id != 0x600 + n or fr.remote:
+                                return
+                            out = dev.reply(bytes(fr.data))
+                            if out is not None:
+                                ts = 7000.0 + 0.5 * dev.replies
+                                eds_exp.extend(m.expect(0x580 + n, out, ts))
+                                rig.hub.route(Frame(0x580 + n, out, ts=ts, src=rig.peer_port))
+
                         def call():
                             from canopen.sdo import SdoClient
                             keep = SdoClient.RESPONSE_TIMEOUT
                             SdoClient.RESPONSE_TIMEOUT = 0.001
+                            rig.device = device
                             try:
                                 box["node"] = net.add_node(n, upload_eds=True)
                             finally:
+                                rig.device = None
                                 SdoClient.RESPONSE_TIMEOUT = keep
+                        rig.events.clear()
                     else:
                         def call():
                             box["node"] = net.create_node(n, _local_od(serial))
@@ -549,6 +696,26 @@ def run_hist(case) -> Outcome:
                         bad(f"{kind}/raises", f"{kind} node {n}: {type(e).__name__}: {e}", step)
                         break
                     node = box["node"]
+                    if kind == "add_remote_eds":
+                        # the SUT's own requests (and a closing abort) on 0x600+n are not judged here (C01/C02);
+                        # everything else in the log must be the dispatch of the device's responses
+                        got = [e for e in rig.events if not (e[0] == "tx" and e[1] == 0x600 + n)]
+                        if rig.port.notify_errors:
+                            fr, e = rig.port.notify_errors[0]
+                            bad("add_remote_eds/dispatch-raises", f"response {fr!r} of the device during the "
+                                f"upload: {type(e).__name__}: {e}", step)
+                            break
+                        if not _events_match(eds_exp, got):
+                            bad("add_remote_eds/events", f"device '{mode}' answered {dev.replies} requests on "
+                                f"{0x580 + n:#x}; model subscribers there {m.subs.get(0x580 + n, [])}; expected "
+                                f"events {_show_events(eds_exp)} got {_show_events(got)}", step)
+                            break
+                        if mode == "ok":
+                            try:
+                                if 0x1000 in node.object_dictionary:
+                                    stats["eds-uploaded"] = True
+                            except Exception:
+                                pass
                     o = new_obj("remote" if kind in ("add_remote_int", "add_remote_eds") else "local", n, node)
                     if old is not None:
                         m.detach(old)
@@ -560,6 +727,14 @@ def run_hist(case) -> Outcome:
                         ok = False
                     if not ok:
                         bad("nodes/mapping", f"after {kind} node {n}: network[{n}] is not the returned node", step)
+                    if kind == "add_remote_eds" and not D:
+                        real, want = rig.probe(), m.probe()
+                        if real != want:
+                            bad("add_remote_eds/node-effects", f"after the upload (device '{mode}') the node objects "
+                                f"show {real} want {want}", step)
+                        elif list(net.scanner.nodes) != m.scan:
+                            bad("scanner/history", f"after the upload from node {n} (device '{mode}', {dev.replies} "
+                                f"responses): scanner.nodes = {list(net.scanner.nodes)} want {m.scan}", step)
             elif kind == "readd":
                 if m.objs:
                     o = m.objs[op["k"] % len(m.objs)]
@@ -619,8 +794,12 @@ def run_hist(case) -> Outcome:
                         f"expected on the bus {_show_events(exp)} got {_show_events(got)}", step)
             else:
                 raise ValueError(kind)
+            if not D and kind not in ("frame", "send", "scanner_reset"):
+                check_table(step)
             if D:
                 break
+        if not D:
+            check_table("end of history")
         # sweep: one frame on every id that ever had a subscriber
         if not D:
             cnt = 0
@@ -633,6 +812,8 @@ def run_hist(case) -> Outcome:
                         break
                 if D:
                     break
+        if not D:
+            check_table("after the sweep")
         # what the SDO clients of remote nodes were handed
         if not D:
             for o in m.objs:
@@ -665,8 +846,14 @@ def run_hist(case) -> Outcome:
         klass += "/zero-timestamp"
     if stats["sent"]:
         klass += "/send"
+    if stats.get("eds-uploaded"):
+        klass += "/eds-uploaded"
+    if any(stats.get("eds-" + x) for x in ("silent", "abort", "garbage", "exp", "lose")):
+        klass += "/eds-upload-failed"
     if stats["cut"]:
         klass += "/cut-at-stripped-removal"
+    if stats.get("no-table"):
+        klass += "/subscriber-table-not-observable"
     return Outcome(nontrivial, klass, D)
 
 
@@ -1067,6 +1254,8 @@ def decode(nodes, free11, free29, raw):
             what = (("add_remote", "add_remote_int", "add_remote", "add_remote_eds") if kind == 10
                     else ("create_local", "set_local"))[a % (4 if kind == 10 else 2)]
             ops.append({"op": what, "n": n})
+            if what == "add_remote_eds":
+                ops[-1]["dev"] = DEV_MODES[c % len(DEV_MODES)]
             objs.append(("remote" if kind == 10 else "local", n, []))
             attached[n] = len(objs) - 1
         elif kind == 12:
@@ -1100,7 +1289,12 @@ def enum_hist(maxlen):
               {"op": "sub", "id": 0x80 + n, "cb": 0},
               {"op": "frame", "id": 0x80 + n, "data": bytes([0x10, 0x81, 1, 0, 0, 0, 0, 0]), "ts": 0.0,
                "via": "listener"}]
-    for alpha in (alpha1, alpha2):
+    tx = 0x580 + n
+    alpha3 = [{"op": "add_remote_eds", "n": n, "dev": d} for d in ("silent", "abort", "ok", "lose2")] + \
+             [{"op": "add_remote", "n": n}, {"op": "del", "n": n}, {"op": "sub", "id": tx, "cb": 2},
+              {"op": "frame", "id": tx, "data": bytes([0x60, 0, 0x20, 0, 0, 0, 0, 0]), "ts": 0.000271,
+               "via": "notify"}]
+    for alpha, cut in ((alpha1, 0), (alpha2, 0), (alpha3, 1)):
         def rec(prefix, depth):
             if prefix:
                 yield {"fam": "hist", "nodes": [n], "ops": list(prefix)}
@@ -1110,7 +1304,7 @@ def enum_hist(maxlen):
                 prefix.append(x)
                 yield from rec(prefix, depth - 1)
                 prefix.pop()
-        yield from rec([], maxlen)
+        yield from rec([], maxlen - cut)
 
 
 def _unpack_bytes(b):
@@ -1173,7 +1367,7 @@ def scan_strategy():
 
 
 def node_templates():
-    """Two mixed local/remote life cycles for every node id 1..127."""
+    """Three mixed local/remote life cycles for every node id 1..127."""
     emcy = bytes([0x00, 0x50, 0x11, 9, 8, 7, 6, 5])
     for n in range(1, 128):
         hb, em, tx, rq = 0x700 + n, 0x80 + n, 0x580 + n, 0x600 + n
@@ -1194,6 +1388,15 @@ def node_templates():
         yield {"fam": "hist", "nodes": [n], "ops": subs[:2] + [{"op": "add_remote", "n": n}] + subs[2:] + frames(1) +
                [{"op": "sub", "id": hb, "cb": 0}, {"op": "create_local", "n": n}] + frames(2) +
                [{"op": "add_remote_int", "n": n}] + frames(3) + [{"op": "del", "n": n}] + frames(4)}
+        # every way an EDS upload can end, for every node id: upload while nothing / a remote node / a local node
+        # is at that id, frames on all its ids after each, then removal
+        d = DEV_MODES[n % len(DEV_MODES):] + DEV_MODES[:n % len(DEV_MODES)]
+        yield {"fam": "hist", "nodes": [n], "ops": subs[2:4] + [{"op": "add_remote_eds", "n": n, "dev": d[0]}] +
+               frames(1) + subs[:2] + [{"op": "add_remote_eds", "n": n, "dev": d[1]}] + frames(2) +
+               [{"op": "create_local", "n": n}, {"op": "add_remote_eds", "n": n, "dev": d[2]}] + frames(3) +
+               [{"op": "readd", "k": 0}, {"op": "add_remote_eds", "n": n, "dev": d[3]}, {"op": "del", "n": n}] +
+               frames(4) + [{"op": "add_remote_eds", "n": n, "dev": d[4]}, {"op": "unsub", "id": tx, "cb": 2},
+                            {"op": "del", "n": n}] + frames(5)}
         yield {"fam": "hist", "nodes": [n], "ops": [{"op": "set_local", "n": n}] + subs + frames(1) +
                [{"op": "add_remote", "n": n}, {"op": "add_sdo", "k": 0, "rx": rq, "tx": em}] + frames(2) +
                [{"op": "sub", "id": em, "cb": 1}, {"op": "readd", "k": 1}] + frames(3) + [{"op": "readd", "k": 0}] +
@@ -1222,6 +1425,16 @@ def showcase():
         {"op": "frame", "id": hb, "data": b"\x04", "ts": 107.5, "via": "notify"},
         {"op": "del", "n": n}, {"op": "del", "n": n}, {"op": "unsub_all", "id": hb},
         {"op": "frame", "id": 0, "data": bytes([128, 0]), "ts": 108.5, "via": "listener"}]}
+    tx = 0x580 + n
+    resp = bytes([0x60, 0, 0x20, 0, 0, 0, 0, 0])
+    yield {"fam": "hist", "nodes": [n], "ops": [
+        {"op": "sub", "id": tx, "cb": 0}, {"op": "sub", "id": tx, "cb": 0},
+        {"op": "add_remote_eds", "n": n, "dev": "lose1"},
+        {"op": "frame", "id": tx, "data": resp, "ts": 1.5, "via": "notify"},
+        {"op": "add_remote_eds", "n": n, "dev": "ok"},
+        {"op": "frame", "id": tx, "data": resp, "ts": 2.5, "via": "listener"},
+        {"op": "add_remote_eds", "n": n, "dev": "abort"}, {"op": "del", "n": n},
+        {"op": "frame", "id": tx, "data": resp, "ts": 0.0, "via": "notify"}]}
     for can_id in (0x7FF, 0x800, 0x702, 0x10000702):
         yield {"fam": "id", "id": can_id}
     for phases in ([[(0x123, b"\x01")]], [[(0x123, b"\x01\x02")], [(0x123, b"\x03")]],
@@ -1269,8 +1482,10 @@ def search(ctx):
 
     ctx.enumerate(perms(), "scanner fed every 11-bit id in permuted orders, 29-bit ids mixed in")
     ctx.enumerate(enum_hist(5 if thorough else 4), "all histories up to length 4 (quick) / 5 (thorough) over two "
-                  "small alphabets")
-    ctx.enumerate(node_templates(), "two mixed remote/local life-cycle histories for every node id 1..127")
+                  "small alphabets and up to length 3 / 4 over a third one (node add with EDS upload: device "
+                  "silent / aborting / answering / going silent after two responses)")
+    ctx.enumerate(node_templates(), "three mixed remote/local life-cycle histories (one with EDS uploads that end in "
+                  "every way) for every node id 1..127")
     ctx.enumerate(bus_cases(192 if thorough else 12), "frames with given timestamps (all value classes) received "
                   "through a python-can virtual bus and the library's notifier thread, 1-3 connected phases")
     n_short, n_mid, n_long, n_scan = EXAMPLES[ctx.tier]
